@@ -64,7 +64,7 @@ const Profile *find_profile (const std::string &id)
 static J verdict_to_json (const Verdict &v)
 {	J j = J::obj () ;
 	J fl = J::arr () ;
-	for (auto &f : v.findings) { J x = J::obj () ; x ["sig"] = f.sig ; x ["detail"] = f.detail ; x ["task"] = f.task ; x ["op"] = f.op ; fl.push (x) ; }
+	for (auto &f : v.findings) { J x = J::obj () ; x ["sig"] = f.sig ; x ["detail"] = f.detail ; x ["task"] = f.task ; x ["op"] = f.op ; if (!f.plan.is_null ()) x ["plan"] = f.plan ; fl.push (x) ; }
 	j ["findings"] = fl ;
 	j ["hash"] = (long long) (v.hash >> 1) ;
 	j ["nontrivial"] = v.nontrivial ;
@@ -160,7 +160,20 @@ static bool check_ubsan_soft (const std::string &text, std::string &type_out)
 // classify a death from exit status + sanitizer report
 static void classify_death (int exit_code, int sig, const std::string &err, std::string &clause, std::string &disc)
 {	clause = "crash" ; disc = "-" ;
-	if (exit_code == 78) { clause = "budget" ; size_t p = err.find ("why=") ; disc = p != std::string::npos ? err.substr (p + 4, err.find ('\n', p) - p - 4) : "-" ; return ; }
+	if (exit_code == 78)
+	{	clause = "budget" ; size_t p = err.find ("why=") ; disc = p != std::string::npos ? err.substr (p + 4, err.find ('\n', p) - p - 4) : "-" ;
+		// innermost repository function that kept issuing I/O
+		size_t q = 0 ;
+		while ((q = err.find (" in ", q)) != std::string::npos)
+		{	size_t s = q + 4, e = err.find (' ', s), eol = err.find ('\n', s) ;
+			if (e != std::string::npos && eol != std::string::npos && e < eol && err.substr (e, eol - e).find ("/repo/src/") != std::string::npos)
+			{	std::string fn = err.substr (s, e - s) ;
+				if (fn.compare (0, 4, "psf_") != 0 && fn != "header_read" && fn != "header_seek") { disc += ":" + fn ; break ; }
+			}
+			q += 4 ;
+		}
+		return ;
+	}
 	if (exit_code == 79) { clause = "watchdog" ; return ; }
 	std::string kind ;
 	size_t p = err.find ("ERROR: AddressSanitizer: ") ;
@@ -193,6 +206,15 @@ static void classify_death (int exit_code, int sig, const std::string &err, std:
 // watchdog (the only real clock; its only verdict is "this plan did not terminate")
 
 static volatile int64_t *g_slot = nullptr ;
+static char *g_plan_buf = nullptr ;			// shared with the supervisor: explicit sub-plan currently executing
+static const size_t k_plan_buf = 1 << 18 ;
+void note_current_plan (const J &plan)
+{	if (!g_plan_buf) return ;
+	if (plan.is_null ()) { g_plan_buf [0] = 0 ; return ; }
+	std::string s = plan.dump () ;
+	if (s.size () + 1 >= k_plan_buf) { g_plan_buf [0] = 0 ; return ; }
+	memcpy (g_plan_buf + 1, s.data () + 1, s.size ()) ; g_plan_buf [0] = s [0] ;
+}
 static int64_t g_wd_last = -2 ;
 static int g_wd_ticks = 0, g_wd_limit = 20 ;
 static void on_alarm (int)
@@ -240,8 +262,8 @@ struct Stats
 	}
 } ;
 
-static void worker_main (const Profile &prof, uint64_t seed, uint64_t first, uint64_t stride, uint64_t end, const std::string &outpath, volatile int64_t *slot, int max_findings)
-{	g_slot = slot ;
+static void worker_main (const Profile &prof, uint64_t seed, uint64_t first, uint64_t stride, uint64_t end, const std::string &outpath, volatile int64_t *slot, int max_findings, char *planbuf)
+{	g_slot = slot ; g_plan_buf = planbuf ;
 	install_watchdog (30) ;
 	g_os = new SimOS ;
 	FILE *out = fopen (outpath.c_str (), "wb") ;
@@ -252,6 +274,7 @@ static void worker_main (const Profile &prof, uint64_t seed, uint64_t first, uin
 	off_t errpos = lseek (2, 0, SEEK_CUR) ;
 	for (uint64_t idx = first ; idx < end ; idx += stride)
 	{	*slot = (int64_t) idx ;
+		if (g_plan_buf) g_plan_buf [0] = 0 ;
 		J plan = prof.gen (seed, idx) ;
 		Verdict v = prof.check (plan) ;
 		off_t np = lseek (2, 0, SEEK_CUR) ;
@@ -278,7 +301,7 @@ static void worker_main (const Profile &prof, uint64_t seed, uint64_t first, uin
 			if (nfind < max_findings)
 			{	J line = J::obj () ; line ["type"] = "finding" ; line ["idx"] = (long long) idx ;
 				J fl = J::arr () ;
-				for (auto &f : v.findings) { J x = J::obj () ; x ["sig"] = f.sig ; x ["detail"] = f.detail ; x ["task"] = f.task ; x ["op"] = f.op ; fl.push (x) ; }
+				for (auto &f : v.findings) { J x = J::obj () ; x ["sig"] = f.sig ; x ["detail"] = f.detail ; x ["task"] = f.task ; x ["op"] = f.op ; if (!f.plan.is_null ()) x ["plan"] = f.plan ; fl.push (x) ; }
 				line ["findings"] = fl ; line ["plan"] = plan ;
 				std::string s = line.dump () ; fputs (s.c_str (), out) ; fputc ('\n', out) ; fflush (out) ;
 				nfind ++ ;
@@ -329,6 +352,7 @@ static int cmd_run (const Args &a)
 	mkdir (outdir.c_str (), 0755) ;
 	if ((uint64_t) jobs > count) jobs = (int) std::max<uint64_t> (1, count) ;
 	volatile int64_t *slots = (volatile int64_t *) mmap (nullptr, sizeof (int64_t) * jobs, PROT_READ | PROT_WRITE, MAP_SHARED | MAP_ANONYMOUS, -1, 0) ;
+	char *planbufs = (char *) mmap (nullptr, k_plan_buf * jobs, PROT_READ | PROT_WRITE, MAP_SHARED | MAP_ANONYMOUS, -1, 0) ;
 	double t0 = now_s () ;
 	struct W { pid_t pid = -1 ; int inc = 0 ; uint64_t next = 0 ; bool finished = false ; } ;
 	std::vector<W> ws (jobs) ;
@@ -347,7 +371,7 @@ static int cmd_run (const Args &a)
 		if (pid == 0)
 		{	int efd = open (ep, O_RDWR | O_CREAT | O_TRUNC, 0644) ;
 			if (efd >= 0) { dup2 (efd, 2) ; close (efd) ; }
-			worker_main (*prof, seed, w.next, (uint64_t) jobs, end, op, &slots [j], 50) ;
+			worker_main (*prof, seed, w.next, (uint64_t) jobs, end, op, &slots [j], 50, planbufs + k_plan_buf * j) ;
 			_exit (0) ;
 		}
 		w.pid = pid ;
@@ -369,6 +393,9 @@ static int cmd_run (const Args &a)
 		d ["exit"] = WIFEXITED (st) ? WEXITSTATUS (st) : 0 ; d ["signal"] = WIFSIGNALED (st) ? WTERMSIG (st) : 0 ;
 		std::string err = read_file (ep) ; if (err.size () > 6000) err = err.substr (0, 6000) ;
 		d ["stderr"] = err ;
+		{	char *pb = planbufs + k_plan_buf * j ; pb [k_plan_buf - 1] = 0 ;
+			if (pb [0]) { try { J sp = J::parse (std::string (pb)) ; if (sp.is_obj ()) d ["subplan"] = sp ; } catch (...) {} }
+		}
 		deaths.push (d) ;
 		bool too_many = (int) deaths.size () >= max_deaths || (wall_cap > 0 && now_s () - t0 > wall_cap) ;
 		if (idx >= 0 && (uint64_t) idx + jobs < end && !too_many) { w.inc ++ ; w.next = (uint64_t) idx + jobs ; spawn (j) ; }
@@ -397,7 +424,7 @@ static int cmd_run (const Args &a)
 	for (auto &d : deaths.a)
 	{	int64_t idx = d.geti ("idx", -1) ;
 		if (idx < 0) { unconfirmed ++ ; continue ; }
-		J plan = prof->gen (seed, (uint64_t) idx) ;
+		J plan = d.has ("subplan") ? d.at ("subplan") : prof->gen (seed, (uint64_t) idx) ;
 		ForkOut fo = fork_check (*prof, plan) ;
 		std::string clause, disc ;
 		if (fo.died)
@@ -438,7 +465,7 @@ static int cmd_run (const Args &a)
 		for (auto &x : f.at ("findings").a)
 		{	std::string sig = x.gets ("sig") ;
 			sig_count [sig] ++ ;
-			if (!by_sig.count (sig)) { J e = J::obj () ; e ["sig"] = sig ; e ["idx"] = f.geti ("idx") ; e ["detail"] = x.gets ("detail") ; e ["plan"] = f.at ("plan") ; e ["death"] = x.geti ("death", 0) ; by_sig [sig] = e ; }
+			if (!by_sig.count (sig)) { J e = J::obj () ; e ["sig"] = sig ; e ["idx"] = f.geti ("idx") ; e ["detail"] = x.gets ("detail") ; e ["plan"] = x.has ("plan") ? x.at ("plan") : f.at ("plan") ; e ["death"] = x.geti ("death", 0) ; by_sig [sig] = e ; }
 		}
 	J sigs = J::arr () ;
 	for (auto &kv : by_sig) { J e = kv.second ; e ["count"] = (long long) sig_count [kv.first] ; sigs.push (e) ; }
@@ -646,6 +673,29 @@ static int cmd_gate (const Args &a)
 	return mism ? 2 : 0 ;
 }
 
+// debugging aid: execute a plan as is (no oracle ownership filter), print transcript and violations, optionally dump the stores
+static int cmd_exec (const Args &a)
+{	J plan ;
+	if (!J::load (a.get ("plan"), plan)) return 2 ;
+	if (plan.has ("plan")) plan = plan.at ("plan") ;
+	g_os = new SimOS ;
+	Result r = execute (plan) ;
+	for (size_t t = 0 ; t < r.transcript.size () ; t++)
+		for (size_t k = 0 ; k < r.transcript [t].size () ; k++)
+		{	const Rec &x = r.transcript [t][k] ;
+			printf ("t%zu op%zu %-22s ret=%lld err=%d dh=%016llx%s%s\n", t, k, x.api.c_str (), (long long) x.ret, x.err, (unsigned long long) x.dh, x.skipped ? " skipped" : "", x.faulted ? " faulted" : "") ;
+		}
+	for (auto &v : r.viols) printf ("VIOL %s [%s] task %d op %d: %s\n", v.clause.c_str (), v.disc.c_str (), v.task, v.op, v.detail.c_str ()) ;
+	for (auto &o : r.obs) if (a.kv.count ("obs")) printf ("OBS %s\n", o.dump ().substr (0, 600).c_str ()) ;
+	if (a.kv.count ("dump"))
+		for (auto &kv : r.stores)
+		{	std::string fn = a.get ("dump") + "/" + kv.first.substr (kv.first.rfind ('/') + 1) ;
+			FILE *f = fopen (fn.c_str (), "wb") ; if (f) { fwrite (kv.second.data (), 1, kv.second.size (), f) ; fclose (f) ; }
+			printf ("store %s %zu bytes -> %s\n", kv.first.c_str (), kv.second.size (), fn.c_str ()) ;
+		}
+	return 0 ;
+}
+
 static int cmd_formats ()
 {	g_os = new SimOS ;
 	for (auto &f : all_formats ())
@@ -668,6 +718,7 @@ int main (int argc, char **argv)
 	if (cmd == "shrink") return cmd_shrink (a) ;
 	if (cmd == "gate") return cmd_gate (a) ;
 	if (cmd == "formats") return cmd_formats () ;
+	if (cmd == "exec") return cmd_exec (a) ;
 	fprintf (stderr, "unknown command %s\n", cmd.c_str ()) ;
 	return 2 ;
 }
